@@ -71,7 +71,9 @@ func main() {
 		[]string{"PE1"}, []string{"PR1"}, []string{"U0", "PE1"}, []string{"U0", "PR1"}, []string{"X1", "U0", "U1", "PE1", "PR1"}, []string{"PE1", "U0"},
 		[]string{"R7"}, []string{"R8"}, []string{"X1", "R7", "R8"},
 		// two different Ed25519 keys whose 32-bit recipient tags are equal
-		[]string{"EC1"}, []string{"EC2"}, []string{"EC1", "EC2"}, []string{"EC2", "EC1"}, []string{"X1", "EC1", "U1", "EC2"})
+		[]string{"EC1"}, []string{"EC2"}, []string{"EC1", "EC2"}, []string{"EC2", "EC1"}, []string{"X1", "EC1", "U1", "EC2"},
+		// a recipient parsed from a valid but non-canonical key line
+		[]string{"RN1"}, []string{"X2", "RN1"})
 	full := []string{"X1", "X2", "X3", "E1", "E2", "R1", "R2", "R3", "R4", "R5", "R6", "R7", "R8", "U0", "U1", "U2", "U3", "U4", "A1", "A2", "A3", "EZ1", "EZ2", "EC1", "EC2", "PE1", "PR1"}
 	for i := 0; i < r.Pick(12, 60); i++ {
 		n := 4 + rng.Intn(5)
